@@ -65,6 +65,7 @@ type epochInfo struct {
 	known   map[string][]string // keys stored through addresses rooted at known allocations (id terms)
 	stable     map[string]bool  // stable ghosts (changed only by contracts naming them)
 	ghostSet   map[string]bool  // ghosts named by `sets` of contracts reachable in the havoced region
+	fieldConds map[string][]string // loop havoc: cells written only as named struct fields
 	mods       []modTerm        // call havoc limited by an assumed frame (union of clauses)
 	clockBefore string          // allocation clock before the call (objects younger than it are the callee's)
 	entryClock string           // loop havoc: allocation clock at loop entry (frame covers older objects only)
@@ -84,20 +85,31 @@ func (ei *epochInfo) affected(key string) bool {
 		}
 		return ei.ghosts
 	}
-	return ei.all || ei.unknown[key] || len(ei.known[key]) > 0
+	return ei.all || ei.unknown[key] || len(ei.known[key]) > 0 || len(ei.fieldConds[key]) > 0
 }
 
-func (ei *epochInfo) extOnly(key string) bool { return ei.all || ei.unknown[key] }
+func (ei *epochInfo) extOnly(key string) bool {
+	return ei.all || ei.unknown[key] || len(ei.fieldConds[key]) > 0
+}
 
 // restrict: for a call havoc with an assumed frame, the condition under which cell p of heap key
 // may have changed ("" = no restriction: any non-private cell may change).
 func (ei *epochInfo) restrict(key string) string {
 	if ei.mods == nil {
+		if !ei.all && !ei.unknown[key] && len(ei.fieldConds[key]) > 0 {
+			return "(or " + strings.Join(ei.fieldConds[key], " ") + " false)"
+		}
 		return ""
 	}
 	var alts []string
 	for _, m := range ei.mods {
-		if len(m.kinds) > 0 && !m.kinds[key] {
+		if m.fieldKey != "" {
+			if m.fieldKey == key {
+				alts = append(alts, m.fieldCond)
+			}
+			continue
+		}
+		if !m.kindMatches(key) {
 			continue
 		}
 		switch {
@@ -119,6 +131,28 @@ func (ei *epochInfo) restrict(key string) string {
 type modTerm struct {
 	object, younger string
 	kinds           map[string]bool
+	fieldKey        string // "modifies fields": heap key of the field and the condition on cell p
+	fieldCond       string
+}
+
+// kindMatches: empty = every heap kind; "!k" entries exclude kinds (all others match).
+func (m modTerm) kindMatches(key string) bool {
+	if len(m.kinds) == 0 {
+		return true
+	}
+	neg := false
+	for k := range m.kinds {
+		if strings.HasPrefix(k, "!") {
+			neg = true
+			if k[1:] == key {
+				return false
+			}
+		}
+	}
+	if neg {
+		return true
+	}
+	return m.kinds[key]
 }
 
 // shared state between a function's VC and its inlined callees
@@ -846,6 +880,9 @@ func (v *VC) define(x ssa.Value, term string) {
 
 func (v *VC) declare(x ssa.Value) string {
 	n := "v_" + v.pfx + sanitize(x.Name())
+	if x.Name() == "_" {
+		n = v.freshName("v_" + v.pfx + "blank")
+	}
 	v.names[x] = n
 	if x.Type() == nil {
 		return n
